@@ -141,6 +141,57 @@ fn judge_typed(c: &Case, l: &mut Local) {
     l.sample(|| json!({"program": prog, "expected_accept": acc}));
 }
 
+/// The argument check does not depend on what the rule body does with the parameter: bodies that never read it, read it
+/// only in a branch not taken, or use it only as `asm` text.
+const BODY_SHAPES: &[(&str, &str, &str)] = &[
+    ("never-read", "0xa5", ""),
+    ("block-not-reading", "{ y = 1\n 0xa5 }", ""),
+    ("untaken-branch", "0xa5 @ (1 == 1 ? 0x0 : x)", "0000"),
+    ("asm-text-only", "asm { e {x} }", "+"),
+];
+
+fn judge_typed_shape(c: &Case, shape: usize, l: &mut Local) {
+    let (sname, body, tail) = BODY_SHAPES[shape];
+    if tail == "+" && c.n == 0 {
+        return;
+    }
+    let (prelude, operand) = spell(&c.v, c.spelling);
+    let prog = format!("#ruledef {{\n t {{x: {}{}}} => {}\n e {{v}} => 0xa5 @ v`{}\n}}\n{}t {}\n", c.ty.ch(), c.n, body, std::cmp::max(c.n, 1), prelude, operand);
+    let acc = accepts(c.ty, c.n, &c.v);
+    l.eval();
+    l.nontrivial(&("shape", shape, c.ty, c.n, c.v.to_string(), c.spelling));
+    l.class(if acc { "typed-shape-accept" } else { "typed-shape-reject" });
+    let obs = run::assemble_str(&prog, &run::Opts::default());
+    let expect_bits = format!("10100101{}", if tail == "+" { bits_of(&c.v, c.n) } else { tail.to_string() });
+    let bad = if obs.panicked.is_some() {
+        Some("panic")
+    } else if acc {
+        if !obs.success() {
+            Some("in-range argument rejected")
+        } else if obs.bits != expect_bits {
+            Some("accepted argument emitted with wrong bits")
+        } else {
+            None
+        }
+    } else if obs.ok {
+        Some("out-of-range argument accepted")
+    } else if !obs.has_errors {
+        Some("rejected without an error")
+    } else {
+        None
+    };
+    if let Some(b) = bad {
+        l.violation(Violation {
+            property: ID,
+            key: if c.n == 0 && c.v == Z::from(0) && acc { "C04:width0-zero-rejected".to_string() } else { format!("typed-body-{}:{}", sname, b) },
+            what: format!("{}: type {}{} value {} ({}), rule body `{}`", b, c.ty.ch(), c.n, c.v, c.spelling, body.replace('\n', " / ")),
+            case: json!({"kind": "typed-shape", "shape": shape, "program": prog, "ty": c.ty.ch().to_string(), "n": c.n, "v": c.v.to_string(), "spelling": c.spelling,
+                "expected": if acc { json!({"accept": true, "bits": expect_bits}) } else { json!({"accept": false}) }, "observed": obs.summary()}),
+        });
+    }
+    l.traces_validated += 1;
+}
+
 fn judge_data(n: usize, v: &Z, spelling: &'static str, l: &mut Local) {
     // unsized spellings only (dec / expr / const): hex and binary literals carry their own size
     let (prelude, operand) = spell(v, spelling);
@@ -246,6 +297,23 @@ pub fn run(ctx: &Ctx) -> Report {
         }
     }
     rep.absorb(par_cases(&cases, judge_typed));
+    // the same decision whatever the rule body does with the parameter
+    {
+        let shape_upto = if ctx.thorough { 12 } else { 8 };
+        let mut sc: Vec<(Case, usize)> = vec![];
+        for n in 0..=shape_upto {
+            for ty in [Ty::U, Ty::S, Ty::I] {
+                for v in values_for(n, true) {
+                    for sp in ["dec", "const"] {
+                        for shape in 0..BODY_SHAPES.len() {
+                            sc.push((Case { ty, n, v: v.clone(), spelling: sp }, shape));
+                        }
+                    }
+                }
+            }
+        }
+        rep.absorb(par_cases(&sc, |c, l| judge_typed_shape(&c.0, c.1, l)));
+    }
 
     // data directives
     let mut dcases: Vec<(usize, Z, &'static str)> = vec![];
